@@ -4,7 +4,8 @@
 (* four kinds of artefact, each grown one step at a time from the empty    *)
 (* state:                                                                  *)
 (*   name   a property name = sequence of atoms (AppendChar), every        *)
-(*          sequence over NameAlphabet up to MaxLen, plus the seeds;       *)
+(*          sequence over NameAlphabet up to WideLen and every sequence    *)
+(*          of class representatives up to MaxLen, plus the seeds;         *)
 (*   sib    a set of sibling property names of one object (MakeSibs):      *)
 (*          from a name n, every name m of the pair universe that the      *)
 (*          model maps to the same attribute and that is a MINIMAL such    *)
@@ -25,10 +26,12 @@
 (***************************************************************************)
 EXTENDS PropsNames, Json, SequencesExt
 
-CONSTANTS MaxLen,        \* names: atoms per name
+CONSTANTS MaxLen,        \* names: atoms per name (over one representative atom per class)
+          WideLen,       \* names: atoms per name over the wide alphabet (members, words)
           PairLen,       \* pair universe: atoms per name
           Rich,          \* larger alphabets
           MaxTitle,      \* titles: tokens per title
+          UseLen,        \* titles of up to UseLen tokens are combined with every library name
           MaxSlots       \* documents: objects besides the root
 
 VARIABLES vName, vSib, vTitle, vUse, vRoot, vSlots
@@ -104,8 +107,10 @@ TitleAlphabet ==
                       W("integer"), W("number"), W("boolean"), W("null"), W("array"),
                       W("oneOf"), W("allOf"), W("all"), W("of"), HY, W("outer")} ELSE {})
 
-SlotTitles == {<<W("A")>>, <<W("a")>>, <<W("B")>>}
-              \cup (IF Rich THEN {<<W("A"), SP, At("dg", "1")>>} ELSE {})
+(* "A" and "a" format to the same class name; "A_1" is what the de-duplication *)
+(* suffix looks like (the formatter drops the "_1": it must never survive)    *)
+SlotTitles == {<<W("A")>>, <<W("a")>>, <<W("A"), US, At("dg", "1")>>}
+              \cup (IF Rich THEN {<<W("B")>>, <<W("A"), SP, At("dg", "1")>>} ELSE {})
 RootTitles == {<<W("T")>>, <<W("A")>>}
 OuterTitle == <<W("Outer")>>
 
@@ -129,7 +134,9 @@ InDocs   == vName = <<>> /\ vSib = None /\ vTitle = <<>> /\ vUse = "none"
 
 AppendChar ==
   /\ InNames /\ Len(vName) < MaxLen
-  /\ \E a \in NameAlphabet : vName' = Append(vName, a)
+  /\ \E a \in (IF Len(vName) < WideLen THEN NameAlphabet
+               ELSE IF \A i \in 1..Len(vName) : vName[i] \in ClassReps THEN ClassReps ELSE {}) :
+        vName' = Append(vName, a)
   /\ UNCHANGED <<vSib, vTitle, vUse, vRoot, vSlots>>
 
 SibCases(n) ==
@@ -148,7 +155,7 @@ AppendTok ==
   /\ \E a \in TitleAlphabet : vTitle' = Append(vTitle, a)
   /\ UNCHANGED <<vName, vSib, vUse, vRoot, vSlots>>
 SetUse ==
-  /\ InTitles /\ Len(vTitle) > 0 /\ vUse = "none"
+  /\ InTitles /\ Len(vTitle) > 0 /\ Len(vTitle) <= UseLen /\ vUse = "none"
   /\ vUse' \in UseKinds
   /\ UNCHANGED <<vName, vSib, vTitle, vRoot, vSlots>>
 
@@ -159,6 +166,7 @@ AddSlot ==
   /\ \E sl \in SlotChoices :
         /\ sl.pos = "addl" => \A j \in 1..Len(vSlots) : vSlots[j].pos # "addl"
         /\ vSlots = <<>> => sl.shape = 1          \* the two shapes are symmetric
+        /\ Len(vSlots) = 2 => sl.title = <<W("A")>>   \* a third object always shares the title
         /\ vSlots' = Append(vSlots, sl)
   /\ UNCHANGED <<vName, vSib, vTitle, vUse>>
 
